@@ -1126,8 +1126,8 @@ package keyvalue
 //@ func isMissingDir(path string, info hackpadfs.FileInfo, err error) (missing bool, returnedErr error)
 //@   props C01 C03 C05
 //@   dispatch hackpadfs.FileInfo fileInfo
-//@   dispatch FileRecord mem.fileRecord
-//@   requires implies(err == nil, isType(info, fileInfo) && isMemRec(infoOf(info).Record))
+//@   dispatch FileRecord mem.fileRecord *BaseFileRecord
+//@   requires implies(err == nil, isType(info, fileInfo) && infoOf(info).Record != nil && implies(isBaseRec(infoOf(info).Record), infoOf(info).Record.(*BaseFileRecord) != nil))
 //@   ensures "missing" implies(errIs(err, hackpadfs.ErrNotExist), missing && returnedErr == nil)
 //@   ensures "error" implies(err != nil && !errIs(err, hackpadfs.ErrNotExist), !missing && returnedErr == err)
 //@   ensures "dir" implies(err == nil && infoIsDir(info), !missing && returnedErr == nil)
@@ -1139,17 +1139,27 @@ package keyvalue
 //@        ite(in(p, dom(tsRecs(store))), e == nil && infoOf(info).Record == tsRecs(store)[p] && mem.recOK(infoOf(info).Record, memStoreOf(store.store), p),
 //@            e == hackpadfs.ErrNotExist && infoOf(info).Record == nil)
 
+//@ spec serInfo(info hackpadfs.FileInfo, e error, r OpResult, p string) := isType(info, fileInfo) && allocated(payload(info)) && infoOf(info).Path == p && infoOf(info).Record == r.Record && e == r.Err
+//@ spec serInfoUsable(info hackpadfs.FileInfo, e error, p string) := isType(info, fileInfo) && allocated(payload(info)) && infoOf(info).Path == p &&
+//@        implies(e == nil, infoOf(info).Record != nil && srcOK(infoOf(info).Record) && allocated(payload(infoOf(info).Record)))
 //@ func statAll(store *transactionOnly, paths []string) (infos []hackpadfs.FileInfo, errs []error)
 //@   props C01 C03 C14
-//@   requires tsMem(store) && len(paths) < 1<<30
-//@   modifies held(memStoreOf(store.store).mu)
+//@   requires (tsMem(store) || tsSer(store)) && len(paths) < 1<<30
+//@   modifies held(memStoreOf(store.store).mu), world()
+//@   tracks getFileRecords
 //@   loop 1 invariant "shape" rangeindex >= -1 && rangeindex < max(len(paths), 1) && (len(paths) > 0 || rangeindex == -1) &&
-//@                      len(infos) == len(paths) && len(errs) == len(paths) && fresh(infos) && fresh(errs) && len(results) == len(paths) && tsMem(store)
-//@   loop 1 invariant "results" forall(j, 0, len(paths), resFor(results[j], store, paths[j]))
-//@   loop 1 invariant "infos" forall(j, 0, rangeindex + 1, infoFor(infos[j], errs[j], store, paths[j]))
+//@                      len(infos) == len(paths) && len(errs) == len(paths) && fresh(infos) && fresh(errs) && len(results) == len(paths) &&
+//@                      implies(tsIsMem(store), tsMem(store) && world() == old(world())) && implies(!tsIsMem(store), tsSer(store)) &&
+//@                      called("getFileRecords") && result("getFileRecords", 0) == results && result("getFileRecords", 1) == nil
+//@   loop 1 invariant "results" implies(tsIsMem(store), forall(j, 0, len(paths), resFor(results[j], store, paths[j]))) && implies(!tsIsMem(store), forall(j, 0, len(paths), resUsable(results[j])))
+//@   loop 1 invariant "infos" implies(tsIsMem(store), forall(j, 0, rangeindex + 1, infoFor(infos[j], errs[j], store, paths[j]))) &&
+//@                      implies(!tsIsMem(store), forall(j, 0, rangeindex + 1, serInfo(infos[j], errs[j], results[j], paths[j])))
 //@   ensures "shape" len(infos) == len(paths) && len(errs) == len(paths) && fresh(infos) && fresh(errs)
-//@   ensures "infos" forall(j, 0, len(paths), infoFor(infos[j], errs[j], store, paths[j]))
-//@   ensures "unlocked" tsMem(store)
+//@   ensures "infos" implies(tsIsMem(store), forall(j, 0, len(paths), infoFor(infos[j], errs[j], store, paths[j])) && world() == old(world()))
+//@   ensures "serial-infos" [C14] implies(!tsIsMem(store), forall(j, 0, len(paths), serInfoUsable(infos[j], errs[j], paths[j])))
+//@   ensures "serial-errors-kept" [C14] implies(!tsIsMem(store) && called("getFileRecords") && result("getFileRecords", 1) == nil,
+//@                     forall(j, 0, len(paths), errs[j] == result("getFileRecords", 0)[j].Err && infoOf(infos[j]).Record == result("getFileRecords", 0)[j].Record))
+//@   ensures "unlocked" implies(tsIsMem(store), tsMem(store)) && implies(!tsIsMem(store), held(memStoreOf(store.store).mu) == old(held(memStoreOf(store.store).mu)))
 //@   nopanic
 
 // the chain name, dir(name), dir(dir(name)), ... of missing directories, nearest existing ancestor excluded
@@ -1157,28 +1167,31 @@ package keyvalue
 //@        forall(i, 0, len(dirs) - 1, dirs[i] != "." && dirs[i+1] == pdir(dirs[i]))
 
 //@ func (fs *FS) findMissingDirs(name string) (dirs []string, err error)
-//@   props C01 C03 C04 C05
-//@   requires fsMem(fs) && len(name) < 1<<30
+//@   props C01 C03 C04 C05 C14
+//@   requires fsOK(fs) && len(name) < 1<<30
 //@   use dirValidAll()
 //@   use dirLenAll()
-//@   modifies held(ms(fs).mu)
+//@   modifies held(ms(fs).mu), world()
+//@   propagates [C14] isMissingDir
 //@   loop 1 invariant "chain" VP(currentPath) && len(paths) + len(currentPath) <= len(name) + 1 && ((ref(paths) == 0 && cap(paths) == 0 && len(paths) == 0) || fresh(paths)) &&
 //@                      forall(i, 0, len(paths), VP(paths[i]) && paths[i] != ".") && implies(len(paths) > 0, paths[0] == name) &&
 //@                      forall(i, 0, len(paths) - 1, paths[i+1] == pdir(paths[i])) &&
-//@                      currentPath == ite(len(paths) == 0, name, pdir(paths[len(paths) - 1])) && fsMem(fs)
+//@                      currentPath == ite(len(paths) == 0, name, pdir(paths[len(paths) - 1])) && fsOK(fs) && world() == old(world()) && !failed("isMissingDir")
 //@   loop 1 decreases len(name) + 2 - len(paths)
 //@   loop 2 invariant "prefix" rangeindex >= -1 && rangeindex < len(paths) && len(missingDirs) == rangeindex + 1 && ((ref(missingDirs) == 0 && cap(missingDirs) == 0 && len(missingDirs) == 0) || fresh(missingDirs)) &&
-//@                      forall(j, 0, rangeindex + 1, missingDirs[j] == paths[j] && !kvHas(fs, paths[j])) &&
+//@                      forall(j, 0, rangeindex + 1, missingDirs[j] == paths[j] && implies(isMem(fs), !kvHas(fs, paths[j]))) &&
 //@                      len(paths) >= 1 && len(paths) <= len(name) + 2 && paths[len(paths) - 1] == "." && paths[0] == ite(len(paths) == 1, ".", name) &&
 //@                      forall(i, 0, len(paths), VP(paths[i])) && forall(i, 0, len(paths) - 1, paths[i] != "." && paths[i+1] == pdir(paths[i])) &&
-//@                      len(infos) == len(paths) && len(errs) == len(paths) && forall(j, 0, len(paths), infoFor(infos[j], errs[j], fs.store, paths[j])) && fsMem(fs)
-//@   ensures "gate" [C04] implies(!VP(name), dirs == nil && err == hackpadfs.ErrInvalid)
-//@   ensures "chain" implies(err == nil, chainOK(dirs, name) && forall(i, 0, len(dirs), !kvHas(fs, dirs[i])))
-//@   ensures "anchor" implies(err == nil && len(dirs) > 0 && dirs[len(dirs) - 1] != ".", kvHas(fs, pdir(dirs[len(dirs) - 1])) && memIsDir(fs, pdir(dirs[len(dirs) - 1])))
-//@   ensures "exists" implies(err == nil && len(dirs) == 0, kvHas(fs, name) && memIsDir(fs, name))
-//@   ensures "not-dir" [C05] implies(VP(name) && err != nil, isPathError(err) && errIs(err, hackpadfs.ErrNotDir) && innerErr(err) == hackpadfs.ErrNotDir &&
+//@                      len(infos) == len(paths) && len(errs) == len(paths) && fsOK(fs) && !failed("isMissingDir") &&
+//@                      implies(isMem(fs), forall(j, 0, len(paths), infoFor(infos[j], errs[j], fs.store, paths[j])) && world() == old(world())) &&
+//@                      implies(!isMem(fs), forall(j, 0, len(paths), serInfoUsable(infos[j], errs[j], paths[j])))
+//@   ensures "gate" [C04] implies(!VP(name), dirs == nil && err == hackpadfs.ErrInvalid && world() == old(world()))
+//@   ensures "chain" implies(err == nil, chainOK(dirs, name) && implies(isMem(fs), forall(i, 0, len(dirs), !kvHas(fs, dirs[i]))))
+//@   ensures "anchor" implies(isMem(fs) && err == nil && len(dirs) > 0 && dirs[len(dirs) - 1] != ".", kvHas(fs, pdir(dirs[len(dirs) - 1])) && memIsDir(fs, pdir(dirs[len(dirs) - 1])))
+//@   ensures "exists" implies(isMem(fs) && err == nil && len(dirs) == 0, kvHas(fs, name) && memIsDir(fs, name))
+//@   ensures "not-dir" [C05] implies(isMem(fs) && VP(name) && err != nil, isPathError(err) && errIs(err, hackpadfs.ErrNotDir) && innerErr(err) == hackpadfs.ErrNotDir &&
 //@                     kvHas(fs, pathOf(err)) && !memIsDir(fs, pathOf(err)))
-//@   ensures "inv" fsMem(fs)
+//@   ensures "inv" fsOK(fs) && implies(isMem(fs), world() == old(world())) && implies(!isMem(fs), held(ms(fs).mu) == old(held(ms(fs).mu)))
 //@   nopanic
 
 //@ spec dirMode(perm hackpadfs.FileMode) := hackpadfs.ModeDir | (perm & hackpadfs.ModePerm)
@@ -1186,24 +1199,27 @@ package keyvalue
 //@ spec newAreDirs(fs *FS, perm hackpadfs.FileMode) := forall(k, string, implies(kvHas(fs, k) && !old(kvHas(fs, k)), isType(kvRec(fs, k), mem.fileRecord) && memRec(fs, k).mode == dirMode(perm)))
 
 //@ func (fs *FS) MkdirAll(path string, perm hackpadfs.FileMode) (err error)
-//@   props C01 C03 C04 C05
-//@   requires fsMem(fs) && len(path) < 1<<30
+//@   props C01 C03 C04 C05 C14
+//@   requires fsOK(fs) && len(path) < 1<<30
 //@   use dirValidAll()
 //@   modifies world(), mapOf(ms(fs).records)
+//@   propagates [C14] findMissingDirs
+//@   propagates [C14] setFile unless errIs(e, hackpadfs.ErrExist)
 //@   loop 1 modifies mapOf(ms(fs).records), held(ms(fs).mu), world()
-//@   loop 1 invariant "built" i >= -1 && i < len(missingDirs) && chainOK(missingDirs, path) && fsMem(fs) && world() == old(world()) &&
+//@   loop 1 invariant "no-failure" !failed("findMissingDirs") && !failed("setFile") && implies(!isMem(fs), held(ms(fs).mu) == old(held(ms(fs).mu)))
+//@   loop 1 invariant "built" i >= -1 && i < len(missingDirs) && chainOK(missingDirs, path) && fsOK(fs) && implies(isMem(fs), world() == old(world()) &&
 //@                      forall(j, 0, i + 1, !kvHas(fs, missingDirs[j])) &&
 //@                      forall(j, i + 1, len(missingDirs), kvHas(fs, missingDirs[j]) && memIsDir(fs, missingDirs[j])) &&
 //@                      implies(len(missingDirs) > 0 && missingDirs[len(missingDirs) - 1] != ".", kvHas(fs, pdir(missingDirs[len(missingDirs) - 1])) && memIsDir(fs, pdir(missingDirs[len(missingDirs) - 1]))) &&
-//@                      oldKept(fs) && newAreDirs(fs, perm) && implies(old(treeInv(fs)), treeInv(fs))
+//@                      oldKept(fs) && newAreDirs(fs, perm) && implies(old(treeInv(fs)), treeInv(fs)))
 //@   loop 1 decreases i + 1
-//@   ensures "gate" [C04] implies(!VP(path), errIs(err, hackpadfs.ErrInvalid) && memSame(fs))
+//@   ensures "gate" [C04] implies(!VP(path), errIs(err, hackpadfs.ErrInvalid) && world() == old(world()) && implies(isMem(fs), memSame(fs)))
 //@   ensures "typed" [C05] implies(err != nil, isPathError(err))
-//@   ensures "not-dir" [C01 C05] implies(VP(path) && err != nil, errIs(err, hackpadfs.ErrNotDir) && old(kvHas(fs, pathOf(err))) && !old(memIsDir(fs, pathOf(err))) && memSame(fs))
-//@   ensures "made" [C01 C03] implies(err == nil, kvHas(fs, path) && memIsDir(fs, path) && oldKept(fs) && newAreDirs(fs, perm))
-//@   ensures "tree" [C03] implies(old(treeInv(fs)), treeInv(fs))
-//@   ensures "mem-world" world() == old(world())
-//@   ensures "inv" fsMem(fs)
+//@   ensures "not-dir" [C01 C05] implies(isMem(fs) && VP(path) && err != nil, errIs(err, hackpadfs.ErrNotDir) && old(kvHas(fs, pathOf(err))) && !old(memIsDir(fs, pathOf(err))) && memSame(fs))
+//@   ensures "made" [C01 C03] implies(isMem(fs) && err == nil, kvHas(fs, path) && memIsDir(fs, path) && oldKept(fs) && newAreDirs(fs, perm))
+//@   ensures "tree" [C03] implies(isMem(fs) && old(treeInv(fs)), treeInv(fs))
+//@   ensures "mem-world" implies(isMem(fs), world() == old(world()))
+//@   ensures "inv" fsOK(fs)
 //@   nopanic
 
 // Rename. Under contract: the name gate, every refusal that protects the tree (missing source, destination is a
